@@ -274,3 +274,272 @@ def check_c10(pid, tier, seed, replay=None):
     return finish(pid, tier, seed, 'model_checking', scs, res, rules, t0,
       'scenario = complete decode of one generated stream through vorbisfile in seekable or streaming mode under one short-read schedule of the read callback (1 byte, random, fixed k, page-boundary +-d, inside-page-header +-d) and one schedule of requested lengths; every delivered chunk is located bit-exactly in the packet-level reference decode; non-trivial = audio delivered; distinct = distinct script text',
       nontrivial_default, COMMON_ASSUME + ['third access path (packet-level API) is the reference itself'])
+
+# ---------------------------------------------------------------- C19 lapped seeks / crosslap
+def fam_lapgrid(rng, f, kind, targets, name, pre):
+    h = 0
+    ls = [f'open {h} {fid(f)} seek']
+    if pre == 'eof': ls += [f'ps {h} e:0', f'rf {h} 4096']
+    elif pre == 'read': ls += [f'rf {h} 4096', f'rf {h} 64']
+    elif pre == 'linkend': ls += [f'ps {h} p:0:9999:-5', f'rf {h} 2']
+    elif pre == 'badseek': ls += [f'ps {h} e:10']
+    for t in targets:
+        if kind in ('tsl','tspl'):
+            l, rel, q = t
+            ls.append(f'{kind} {h} {l} {rel} {q}')
+        else:
+            ls.append(f'{kind} {h} {t}')
+        for _ in range(rng.choice([1,2,3])): ls.append(f'rf {h} {rng.choice([1,50,4096,100000])}')
+    ls += [f'clear {h}']
+    return Scenario(name, [f], ls, f'lapgrid-{kind}', budget=90)
+
+def fam_crosslap(rng, f1, f2, name, n):
+    ls = [f'open 0 {fid(f1)} seek', f'open 1 {fid(f2)} seek']
+    for i in range(n):
+        # move both handles somewhere, read a bit, crosslap, read both
+        ls.append(f'ps 0 {rng.choice(pcm_targets(rng, f1, 30))}')
+        if rng.random() < 0.7: ls.append(f'rf 0 {rng.choice([1,64,4096])}')
+        ls.append(f'ps 1 {rng.choice(pcm_targets(rng, f2, 30))}')
+        if rng.random() < 0.5: ls.append(f'rf 1 {rng.choice([1,64,4096])}')
+        ls.append('xl 0 1')
+        for _ in range(3): ls.append(f'rf 1 {rng.choice([10,4096])}')
+        ls.append(f'rf 0 4096')
+    ls += ['clear 0', 'clear 1']
+    return Scenario(name, sorted(set([f1,f2])), ls, 'crosslap', budget=90)
+
+def check_c19(pid, tier, seed, replay=None):
+    t0 = time.time(); rng = random.Random(seed*7919+19)
+    bindir = vlib.build('asan')
+    quick = (tier != 'thorough')
+    files = ['B','C','D','E','I','N','K','T'] + ([] if quick else ['A','H','J','L','M','P','Q','F','R','S'])
+    scs = []
+    for f in files:
+        nl = nlinks(f)
+        for kind in ('psl','pspl','rsl','tsl','tspl'):
+            for pre in ([rng.choice([None,'eof','read','linkend','badseek'])] if quick else [None,'eof','read','linkend','badseek']):
+                if kind in ('tsl','tspl'):
+                    tg = [(rng.randrange(nl), rng.choice([0,1,127,128,129,500,2048,7000,10**9]), rng.randrange(4)) for _ in range(10 if quick else 60)]
+                elif kind == 'rsl':
+                    tg = raw_targets(rng, f, 12 if quick else 120) + oor_raw()[:1]
+                else:
+                    tg = pcm_targets(rng, f, 12 if quick else 150) + oor_pcm()[:2]
+                scs.append(fam_lapgrid(rng, f, kind, tg, f'lap-{kind}-{f}-{pre}', pre))
+    pairs = [('B','T'),('T','B'),('C','I'),('K','E'),('T','T')] + ([] if quick else [('A','K'),('S','B'),('N','C'),('E','E'),('H','T'),('R','T')])
+    for (a,b) in pairs:
+        scs.append(fam_crosslap(rng, a, b, f'xlap-{a}-{b}', 5 if quick else 40))
+    tl = tlagen.vf_histories(seed+19, n=(30 if quick else 800), depth=(8 if quick else 11), mode='seek')
+    for i,hst in enumerate(tl['hists']):
+        if not any(x[0] in ('psl','pspl','rsl','tsl','tspl') for x in hst): continue
+        f = files[i % len(files)]
+        scs.append(fam_from_tla(hst, f, f'tlalap{i}-{f}', family='tla-history-lap'))
+    res = run_batch(pid, tier, scs, bindir)
+    rules = SEEK_RULES | READ_RULES | SAFETY_RULES | XL_RULES
+    def nt(s, evs): return any(e.get('e','').endswith('Lap') and e.get('ret')==0 for e in evs) or any(e.get('e')=='Crosslap' and e.get('ret')==0 for e in evs)
+    return finish(pid, tier, seed, 'model_checking', scs, res, rules, t0,
+      'scenario = chain of lapped seeks of one variant (each followed by reads) from one prior-history class, or a sequence of ov_crosslap calls between two handles at generated positions, or a TLC-generated history containing lapped seeks; after a lapped seek only the first min(bs0_old,bs0_new)/2 samples may differ from the reference (checked per read via the first-match index); non-trivial = at least one successful lapped seek / crosslap; distinct = distinct script text',
+      nt, COMMON_ASSUME + ['values inside the lapped region are not decided (float cross-fade)'], extra_cov=dict(tla_generator=tl['stats']))
+
+# ---------------------------------------------------------------- C20 half rate
+def fam_halfrate(rng, f, name, n, toggle_at):
+    h = 0; nl = nlinks(f)
+    ls = [f'open {h} {fid(f)} seek']
+    pt = pcm_targets(rng, f, 200); rt = raw_targets(rng, f, 60)
+    if toggle_at == 'fresh': ls.append(f'hr {h} 1')
+    elif toggle_at == 'midpacket': ls += [f'rf {h} 37', f'hr {h} 1']
+    elif toggle_at == 'linkend': ls += [f'ps {h} p:0:9999:-3', f'rf {h} 1', f'hr {h} 1']
+    elif toggle_at == 'eof': ls += [f'ps {h} e:0', f'rf {h} 64', f'hr {h} 1']
+    elif toggle_at == 'badseek': ls += [f'ps {h} e:99', f'hr {h} 1']
+    elif toggle_at == 'rawend': ls += [f'rs {h} oe:0', f'hr {h} 1']
+    ls.append(f'q {h}')
+    for _ in range(n):
+        k = rng.choice(['ps','ps','psp','rs','ts','rf','rf','ri','hr','tell'])
+        if k in ('ps','psp'): ls.append(f'{k} {h} {rng.choice(pt)}')
+        elif k == 'rs': ls.append(f'rs {h} {rng.choice(rt)}')
+        elif k == 'ts': ls.append(f'ts {h} {rng.randrange(nl)} {rng.choice([0,1,2,101,256,999,3001])} {rng.randrange(4)}')
+        elif k == 'rf': ls.append(f'rf {h} {rng.choice(READ_LENS)}')
+        elif k == 'ri': ls.append(f'ri {h} 4096 2 1 0')
+        elif k == 'hr': ls.append(f'hr {h} {rng.randrange(2)}')
+        elif k == 'tell': ls.append(f'tell {h}')
+        if rng.random() < 0.6: ls.append(f'rf {h} {rng.choice(READ_LENS)}')
+    ls += [f'hr {h} 0', f'ps {h} f:0:1:3:0', f'rf {h} 4096', f'clear {h}']
+    return Scenario(name, [f], ls, 'halfrate-'+toggle_at, budget=60)
+
+def fam_halfrate_linear(f, mode, name):
+    h = 0
+    ls = [f'open {h} {fid(f)} {mode}', f'hr {h} 1', f'rfn {h} 4096 -1', f'rf {h} 64', f'clear {h}']
+    return Scenario(name, [f], ls, 'halfrate-linear-'+mode, budget=60)
+
+def check_c20(pid, tier, seed, replay=None):
+    t0 = time.time(); rng = random.Random(seed*7919+20)
+    bindir = vlib.build('asan')
+    quick = (tier != 'thorough')
+    files = ['B','C','D','I','N','T','R','S','K'] + ([] if quick else ['A','E','H','J','L','M','P','Q','F','U'])
+    scs = []
+    for f in files:
+        for mode in ('seek','stream'):
+            if mode == 'stream' and f == 'S': continue   # a later link that cannot do half rate is unknowable when streaming: no promise to hold
+            scs.append(fam_halfrate_linear(f, mode, f'hrlin-{mode}-{f}'))
+        for tg in (['fresh','midpacket','linkend','eof','badseek','rawend'] if not quick else rng.sample(['fresh','midpacket','linkend','eof','badseek','rawend'],3)):
+            for rep in range(1 if quick else 6):
+                scs.append(fam_halfrate(rng, f, f'hr-{tg}-{f}-{rep}', 10 if quick else 25, tg))
+    tl = tlagen.vf_histories(seed+20, n=(30 if quick else 800), depth=(8 if quick else 11), mode='seek')
+    for i,hst in enumerate(tl['hists']):
+        if not any(x[0]=='hr' for x in hst): continue
+        f = files[i % len(files)]
+        scs.append(fam_from_tla(hst, f, f'tlahr{i}-{f}', family='tla-history-hr'))
+    res = run_batch(pid, tier, scs, bindir)
+    rules = HR_RULES | SEEK_RULES | READ_RULES | SAFETY_RULES | OPEN_RULES
+    def nt(s, evs): return any(e.get('e')=='HalfRate' for e in evs) and any(e.get('e')=='ReadF' and e.get('ret',0)>0 and e.get('hs')==1 for e in evs)
+    return finish(pid, tier, seed, 'model_checking', scs, res, rules, t0,
+      'scenario = call history with ov_halfrate toggled at a chosen point (fresh handle, mid-packet, link end, EOF, after a refused seek, after a raw seek to the end) followed by seeks/reads, plus complete half-rate decodes in seekable and streaming mode; streams include links with synthetic 64- and 128-sample short blocks (refusal case); reads are located bit-exactly in the half-rate packet-level reference; non-trivial = a toggle and at least one half-rate read that delivered; distinct = distinct script text',
+      nt, COMMON_ASSUME + ['bs0=64 links are made by rewriting the short-blocksize field of an encoder-made id header and restamping granule positions (a self-consistent legal stream)'], extra_cov=dict(tla_generator=tl['stats']))
+
+# ---------------------------------------------------------------- C12 I/O faults
+FAULT_BASES = {
+  # name: (file, calls after open)
+  'open':      ('B', []),
+  'open1':     ('O', []),
+  'linear':    ('D', ['rfn 0 4096 12']),
+  'pcmseek':   ('B', ['ps 0 f:1:1:2:0', 'rf 0 64', 'ps 0 f:0:1:3:0', 'rf 0 64']),
+  'pageseek':  ('F', ['psp 0 f:0:1:2:0', 'rf 0 64', 'psp 0 f:0:1:9:0']),
+  'rawseek':   ('B', ['rs 0 o:1:3:0', 'rf 0 64', 'rs 0 o:0:2:5', 'rf 0 64']),
+  'timeseek':  ('E', ['ts 0 1 20000 1', 'rf 0 64', 'tsp 0 2 100 0', 'rf 0 64']),
+  'lapseek':   ('B', ['rf 0 100', 'psl 0 f:1:1:3:0', 'rf 0 300', 'rsl 0 o:0:3:0', 'rf 0 64', 'tsl 0 0 5000 0', 'rf 0 64']),
+  'halfrate':  ('T', ['rf 0 100', 'hr 0 1', 'rf 0 100', 'ps 0 f:1:1:2:0', 'rf 0 64', 'hr 0 0', 'rf 0 64']),
+  'spanning':  ('H', ['psp 0 f:0:1:3:0', 'rf 0 64', 'ps 0 k:0:6:1', 'rf 0 64']),
+}
+FAULT_KINDS = {1:'read error (errno)', 2:'premature zero read', 3:'one-byte read', 4:'seek returns -1', 5:'tell returns -1'}
+
+def fam_fault(base, kind, at, persist, name, counted_from_open=True, recover_seed=0):
+    f, calls = FAULT_BASES[base]
+    rng = random.Random(recover_seed)
+    ls = []
+    mode = 'seek'
+    if counted_from_open:
+        ls += [f'fault 0 {kind} {at} {persist}', f'open 0 {fid(f)} {mode}'] + calls
+    else:
+        ls += [f'open 0 {fid(f)} {mode}', f'fault 0 {kind} {at} {persist} rel'] + calls
+    ls += ['faultoff 0']
+    # recovery: the handle (if the open succeeded) must behave like one that never saw the failure
+    tg = pcm_targets(rng, f, 50)
+    for t in rng.sample(tg, 3):
+        ls += [f'ps 0 {t}', 'rf 0 4096', 'rf 0 64']
+    ls += ['psp 0 f:0:1:2:1', 'rf 0 64', 'tell 0', 'clear 0']
+    return Scenario(name, [f], ls, f'fault-{base}', budget=8, tags=('fault',))
+
+def check_c12(pid, tier, seed, replay=None):
+    t0 = time.time(); rng = random.Random(seed*7919+12)
+    bindir = vlib.build('asan')
+    quick = (tier != 'thorough')
+    # phase 1: fault-free runs to count callback invocations per base scenario
+    probes = []
+    for b,(f,calls) in FAULT_BASES.items():
+        probes.append(Scenario(f'probe-{b}', [f], [f'open 0 {fid(f)} seek'] + calls + ['tell 0','clear 0'], 'probe', budget=30))
+    pres = run_batch(pid+'p', tier, probes, bindir)
+    counts = {}
+    for b in FAULT_BASES:
+        evs = pres['scn_events'].get(f'probe-{b}', [])
+        oc = next((e for e in evs if e.get('e')=='Open'), {})
+        tot = [0,0,0]; opn = [oc.get('nrd',0), oc.get('nsk',0), oc.get('ntl',0)]
+        for e in evs:
+            if 'nrd' in e: tot[0]+=e['nrd']; tot[1]+=e['nsk']; tot[2]+=e['ntl']
+        counts[b] = dict(total=tot, open=opn)
+    scs = []
+    step = 7 if quick else 1
+    for b in FAULT_BASES:
+        tot = counts[b]['total']
+        if quick and b not in ('open','pcmseek','rawseek','lapseek','linear','halfrate'): continue
+        for kind in (1,2,3,4,5):
+            K = tot[0] if kind <= 3 else (tot[1] if kind == 4 else tot[2])
+            K = K + 2
+            ks = list(range(1, K+1))
+            if kind <= 3 and len(ks) > (12 if quick else 400):
+                # reads are many: all positions during open + stride (phase by seed) afterwards
+                on = counts[b]['open'][0]
+                dense = [k for k in ks if k <= on+2]
+                sparse = [k for k in ks if k > on+2]
+                st = max(step, len(sparse)//(10 if quick else 300) or 1)
+                sparse = sparse[(seed % st)::st]
+                if quick: dense = dense[(seed % 3)::3]
+                ks = dense + sparse
+            elif quick:
+                ks = ks[(seed % 2)::2] if len(ks) > 6 else ks
+            for k in ks:
+                for persist in (0,1):
+                    if quick and persist == 1 and (k + seed) % 2: continue
+                    scs.append(fam_fault(b, kind, k, persist, f'flt-{b}-k{kind}-at{k}-p{persist}', recover_seed=seed+k))
+    res = run_batch(pid, tier, scs, bindir)
+    res['infra'] += pres['infra']
+    rules = None   # every rule: a fault scenario may break anything
+    def nt(s, evs): return any(e.get('e')=='FaultOff' and e.get('fired',0) > 0 for e in evs)
+    return finish(pid, tier, seed, 'fault_enumeration', scs, res, rules, t0,
+      'scenario = base call sequence (open; open+linear read; each kind of seek incl. page, raw, time, lapped; half-rate toggle; stream with page-spanning packets) with ONE fault plan: fault kind (read error with errno, premature zero read, one-byte read, seek -1, tell -1) x callback invocation index k of the matching callback (counted from before the open) x one-shot/persisting; then faults off -> 3 sample seeks + reads + page seek + tell + clear, which TLC holds to the full VFApi contract; callback counts come from a fault-free probe run; quick tier strides k (phase = seed), thorough enumerates every k; non-trivial = the fault actually fired; distinct = distinct script text',
+      nt, COMMON_ASSUME + ['one fault plan per scenario (single fault position, optionally persisting)'],
+      extra_cov=dict(callback_counts=counts, fault_kinds=FAULT_KINDS))
+
+# ---------------------------------------------------------------- C03 damaged physical streams
+DAMAGE_KINDS = ['garbage','oggs','drop','dup','swap','trunc','setgp','gphuge','cleareos','seteos','setbos','setserial','flip','flipfix','zero']
+
+def damage_lines(rng, fkey, npages_guess, n):
+    out = []
+    for _ in range(n):
+        k = rng.choice(DAMAGE_KINDS)
+        a = rng.randrange(0, max(1,npages_guess))
+        if k == 'garbage': b = rng.choice([1,3,27,100,5000,70000])
+        elif k == 'trunc': b = rng.choice([0,1,5,26,27,28,40,100])
+        elif k == 'setgp': b = rng.choice([-1,0,1,5,100000,2**31-1,-5,-2**31])
+        elif k == 'gphuge': b = rng.choice([0,1,255])
+        elif k == 'setserial': b = rng.choice([0,1000,1001,1002,77,5,-1])
+        elif k in ('flip','flipfix'): b = rng.choice([0,4,5,6,14,18,22,26,27,28,30,60,200])
+        elif k == 'zero': b = rng.choice([0,8,100])
+        else: b = 0
+        out.append(f'dmg {fid(fkey)} {k} {a} {b}')
+    return out
+
+def fam_damaged(rng, f, name, mode):
+    h = 0; nl = nlinks(f)
+    ls = [f'open {h} {fid(f)} {mode}', f'q {h}']
+    pt = pcm_targets(rng, f, 100); rt = raw_targets(rng, f, 60)
+    for _ in range(10):
+        k = rng.choice(['rf','rf','ri','ps','psp','rs','ts','tsp','psl','rsl','tsl','pspl','tspl','hr','tell','q'])
+        if k == 'rf': ls.append(f'rfn {h} {rng.choice(READ_LENS)} {rng.choice([1,3,40])}')
+        elif k == 'ri': ls.append(f'ri {h} {rng.choice([0,1,3,4096])} {rng.choice([1,2,0,-1,3])} {rng.randrange(2)} {rng.randrange(2)}')
+        elif k in ('ps','psp','psl','pspl'): ls.append(f'{k} {h} {rng.choice(pt + oor_pcm())}')
+        elif k in ('rs','rsl'): ls.append(f'{k} {h} {rng.choice(rt + oor_raw())}')
+        elif k in ('ts','tsp','tsl','tspl'): ls.append(f'{k} {h} {rng.randrange(nl)} {rng.choice([0,5,1000,50000,10**9])} {rng.randrange(4)}')
+        elif k == 'hr': ls.append(f'hr {h} {rng.randrange(2)}')
+        elif k == 'tell': ls.append(f'tell {h}')
+        elif k == 'q': ls.append(f'q {h}')
+    ls += [f'rfn {h} 4096 30', f'clear {h}', f'clear {h}']
+    return Scenario(name, [f], ls, f'damaged-{mode}', budget=20, tags=('damaged',))
+
+def check_c03(pid, tier, seed, replay=None):
+    t0 = time.time(); rng = random.Random(seed*7919+3)
+    bindir = vlib.build('asan')
+    quick = (tier != 'thorough')
+    import checks.vfcommon as C
+    scs = []
+    base = ['B','C','D','E','I','N','K','T','H'] + ([] if quick else ['A','J','L','P','Q','R','S','M'])
+    npg = {'B':45,'C':9,'D':9,'E':40,'I':9,'N':12,'K':60,'T':12,'H':30,'A':10,'J':40,'L':25,'P':40,'Q':20,'R':30,'S':60,'M':60}
+    nfiles = 320 if quick else 6000
+    for i in range(nfiles):
+        b = base[i % len(base)]
+        key = f'Z{i}'
+        C.FILES[key] = C.FILES[b]
+        nd = rng.choice([1,1,1,2,2,3,5])
+        pre = damage_lines(rng, key, npg[b], nd)
+        # crosslap with a second, intact handle now and then
+        s = fam_damaged(rng, key, f'dmg{i}-{b}-{"+".join(x.split()[2] for x in pre)}', rng.choice(['seek','seek','stream','test']))
+        s.pre = pre
+        if rng.random() < 0.2:
+            s.files.append('T'); s.lines.insert(2, f'open 1 {fid("T")} seek'); s.lines.insert(3, 'xl 1 0'); s.lines.insert(4, 'xl 0 1'); s.lines.insert(-2, 'clear 1')
+        scs.append(s)
+    res = run_batch(pid, tier, scs, bindir, nproc=16)
+    rules = SAFETY_RULES | {'ReadUndocumentedCode','SeekUndocumentedCode','OpenUndocumentedCode','HalfRateUndocumentedCode','CrosslapUndocumentedCode',
+                            'FailedOpenLeavesHandleCleared','FailedOpenMustNotClose','OpenMustNotClose','NoCloseBehindCaller','ClearReturnsZero','ClearZeroesHandle',
+                            'CloseRunsExactlyOnceAtClear','CloseOnlyForOpenedHandles','ReadAtMostLen','WritesInsideBuffer','ClearReleasesEverything'}
+    def nt(s, evs): return len(evs) >= 6
+    return finish(pid, tier, seed, 'exploration', scs, res, rules, t0,
+      'scenario = a generated chained stream with 1..5 page-level damages drawn from {garbage between pages, capture pattern in garbage, dropped / duplicated / swapped page, truncation at byte d of a page, rewritten granule position (negative, 0, huge, decreasing) with CRC re-fixed, cleared/extra EOS, extra BOS, rewritten serial number (incl. a repeat of another link), bit flips with and without CRC fix, zeroed body}, opened seekable / streaming / via ov_test, followed by 10 random calls over the whole vorbisfile API (reads, every seek and lapped seek, half-rate, crosslap with an intact handle, queries) and a double clear; run under ASan+UBSan with CPU budget and exit trap; oracle (decided in VFApi): no crash, no hang, no exit, documented return codes, failed open leaves the handle zeroed and the source unclosed, close exactly once, no leak; non-trivial = >= 6 events; distinct = distinct damage list + script',
+      nt, ['structured damage only (page level); arbitrary byte strings are not claimed','identity/position rules are switched off for damaged streams'],
+      extra_cov=dict(damage_kinds=DAMAGE_KINDS))
